@@ -543,6 +543,22 @@ def directed():
                      {"op": "conn", "c": 2, "kind": "bin"}, {"op": "init", "c": 2, "cid": 1},
                      {"op": "close", "c": 1, "how": "client"}, {"op": "snap"},
                      {"op": "tick", "n": 15}, {"op": "snap"}])
+    # a connection that ended with a request queued / a hold running; an UNRELATED client (another id, equal to the first in
+    # all bytes but one - every position in turn) announces itself afterwards and is connected when the late grant, the
+    # timeout answer and the expiry notice are produced: it receives none of them
+    for pos in range(16):
+        sc("unrelated-id-differs-in-byte-%d" % pos,
+           [{"op": "conn", "c": 1, "kind": "bin"}, {"op": "init", "c": 1, "cid": 1},
+            {"op": "conn", "c": 2, "kind": "bin"}, {"op": "init", "c": 2, "cid": 3},
+            {"op": "lock", "c": 2, "key": 1, "lid": 120, "to": 0, "ex": 6, "rc": 0},
+            {"op": "lock", "c": 1, "key": 1, "lid": 110, "to": 30, "ex": 4, "rc": 0},      # queued, granted at +7, expires at +12
+            {"op": "lock", "c": 1, "key": 2, "lid": 111, "to": 0, "ex": 9, "rc": 0},       # held, expires at +10
+            {"op": "lock", "c": 2, "key": 3, "lid": 121, "to": 0, "ex": 40, "rc": 0},
+            {"op": "lock", "c": 1, "key": 3, "lid": 112, "to": 3, "ex": 5, "rc": 0},       # queued, times out at +4
+            {"op": "close", "c": 1, "how": ("client", "server", "error")[pos % 3]}, {"op": "snap"},
+            {"op": "conn", "c": 3, "kind": "bin"}, {"op": "init", "c": 3, "cid": 2},
+            {"op": "tick", "n": 5}, {"op": "snap"}, {"op": "tick", "n": 4}, {"op": "snap"}, {"op": "tick", "n": 6}, {"op": "snap"}])
+        D[-1]["cidpos"] = pos
     # queued request of an ended connection times out / is granted; its hold survives and expires
     sc("queued", [{"op": "conn", "c": 1, "kind": "bin"}, {"op": "conn", "c": 2, "kind": "bin"},
                   {"op": "lock", "c": 2, "key": 1, "lid": 120, "to": 0, "ex": 8, "rc": 0},
